@@ -19,6 +19,7 @@ static inline long spec_ld(long x) { return x + ((ALIGN - x % ALIGN) % ALIGN); }
 unsigned long ghost_byte; /* witness byte offset for zero-fill statements */
 
 /* ---- libc / non-extracted callees: ASSUMED contracts (trusted base) */
+#ifndef PLAIN_STUBS
 void *__verif_memset(void *s, int c, unsigned long n)
 __CPROVER_requires(n == 0 || __CPROVER_w_ok(s, n))
 __CPROVER_assigns(__CPROVER_object_upto(s, n))
@@ -34,6 +35,7 @@ void BOne__constructAllItems(struct BOne *self) __CPROVER_requires(1) __CPROVER_
 void BOne__freeAllItems(struct BOne *self) __CPROVER_requires(1) __CPROVER_ensures(1) __CPROVER_assigns();
 void BRhs__constructAllItems(struct BRhs *self) __CPROVER_requires(1) __CPROVER_ensures(1) __CPROVER_assigns();
 void BRhs__freeAllItems(struct BRhs *self) __CPROVER_requires(1) __CPROVER_ensures(1) __CPROVER_assigns();
+#endif
 
 /* ---- GetLeadingDim<T>(n, align) */
 #define LD_CONTRACT(T, SZ) \
@@ -214,6 +216,31 @@ void h_inithdr_cells(void)
   b.allocatedMemorySizeInByte = a;
   b.rawMemoryPtr = malloc(a);
   BCells__initHeader(&b);
+  CANARY();
+}
+
+
+/* buffer reuse after shrinking, then a raw-memory view of the same bytes: the view must report the NEW counts and
+ * offsets (the trailer lives at the end of the ALLOCATED size).  BOUNDED: allocation of 1024 bytes, new item count <= 6;
+ * real bodies of resetBlocksFromSizes and initHeader. */
+#ifdef PLAIN_STUBS
+void *__verif_memset(void *s, int c, unsigned long n) { return __builtin_memset(s, c, n); }
+void BCells__constructAllItems(struct BCells *self) {}
+void BCells__freeAllItems(struct BCells *self) {}
+#endif
+/*@ harness bounded_reuse_then_view plain=1 unwind=6 defs=PLAIN_STUBS bounded=allocated=1024,items<=6 props=C14,C15 timeout=600 */
+void bounded_reuse_then_view(void)
+{
+  struct BCells b; struct std_array_long_2 s;
+  b.objectOwnData = 1; b.allocatedMemorySizeInByte = 1024; b.rawMemoryPtr = malloc(1024);
+  s.d[0] = 1; __CPROVER_assume(0 <= s.d[1] && s.d[1] <= 6);
+  BCells__resetBlocksFromSizes__std_array_long_2(&b, &s);
+  __CPROVER_assert(b.allocatedMemorySizeInByte == 1024 && b.objectOwnData, "C14: a large enough owned buffer is reused");
+  struct BCells v;
+  v.allocatedMemorySizeInByte = b.allocatedMemorySizeInByte; v.rawMemoryPtr = b.rawMemoryPtr; v.objectOwnData = 0;
+  BCells__initHeader(&v);
+  __CPROVER_assert(v.nbItemsInBlocks[0] == 1 && v.nbItemsInBlocks[1] == s.d[1], "C14: a raw-memory view of a reused buffer reports the new item counts");
+  __CPROVER_assert(v.blockRawPtrs[0] == b.blockRawPtrs[0] && v.blockRawPtrs[1] == b.blockRawPtrs[1], "C14: a raw-memory view of a reused buffer derives the same block pointers");
   CANARY();
 }
 
